@@ -222,6 +222,9 @@ def run(tier):
                     'workers': r.choice([None, 1, 4]), 'timeout': 150})
     for k, lim in enumerate([[(1, 1)], [(2, 2)]] if tier == 'quick' else [[(1, 1)], [(2, 2)], [(1, 1)], [(3, 2)], [(1, 2)], [(2, 1), (5, 4)]]):
         bbs.append({'i': len(bbs), 'n_certs': 2 + k % 2, 'limits': lim, 'storm': 0, 'cuts': False, 'forget': True, 'polls': 0, 'workers': r.choice([None, 1, 4]), 'timeout': 150})
+    # limit sets whose long limit is nearly, but not, implied by the short one (through the configuration, not the probe)
+    for k, lim in enumerate([[(2, 2), (5, 5)], [(1, 2), (1, 3)]] if tier == 'quick' else [[(2, 2), (5, 5)], [(1, 2), (1, 3)], [(2, 3), (3, 5)], [(3, 3), (10, 10)], [(5, 5), (2, 2)]]):
+        bbs.append({'i': len(bbs), 'n_certs': 2, 'limits': lim, 'storm': 0, 'cuts': False, 'polls': 1, 'workers': None, 'timeout': 150})
     jobs = [('p', c) for c in pcs] + [('b', c) for c in bbs]
     results = C.parallel(jobs, lambda j: (j[0], probe_case(j[1]) if j[0] == 'p' else blackbox_case(j[1])), workers=14)
     for part, res in results:
